@@ -172,6 +172,13 @@ func isComment(s []byte) bool {
 }
 
 func (p *programSplitter) readProgram() Program {
+	// Blank lines before the first change are insignificant, like blank
+	// lines between changes (which end up at the end of the previous
+	// change's patch).
+	for !p.eof && len(bytes.TrimSpace(p.text)) == 0 {
+		p.next()
+	}
+
 	var prog Program
 	for !p.eof {
 		prog = append(prog, p.readChange())
